@@ -54,8 +54,9 @@ class C10(CleanBase):
             setup, run, info = self.gen_tree(r, sort_names=True)
             ci, upd = r.choice([(False, "unset"), (False, "true"), (False, "clean"), (False, "other"), (True, "clean")])
             sort = r.chance(2, 3)
-            ops = setup + run + [G.op_setenv(ci, upd), {"op": "dumpfs"}, {"op": "clean", "sort": sort, "count": info["count"]}, {"op": "dumpfs"},
-                                 {"op": "clean", "sort": sort, "count": info["count"]}, {"op": "dumpfs"}]
+            colour = r.chance(1, 3)      # Clean prints its summary with ANSI colours
+            ops = setup + run + [G.op_setenv(ci, upd), {"op": "dumpfs"}, {"op": "clean", "sort": sort, "count": info["count"], "colour": colour}, {"op": "dumpfs"},
+                                 {"op": "clean", "sort": sort, "count": info["count"], "colour": colour}, {"op": "dumpfs"}]
             # comparator / header recognition probes
             ids = [b"%s - %d" % (r.choice([b"TestA", b"TestC9", b"TestC10", b"TestC/x_2", b"TestC/x_10", b"Test", b"TestB/sub"]), r.choice([1, 2, 9, 10, 11, 100]))
                    for _ in range(r.range(2, 6))]
@@ -66,6 +67,33 @@ class C10(CleanBase):
                                                              b"[TestA - 1", b"[Test]", b"[TestA/b - c - 3]", b"[]", b"", b"[TestA - 1]]", b"[TestA -  2]"]))})
             cases.append({"ci": False, "updvar": "unset", "colour": False, "ops": ops,
                           "meta": {"mode": "ci=%s upd=%s sort=%s" % (ci, upd, sort), "ci": ci, "upd": upd, "sort": sort}})
+        # large files (>= 13 entries: slices.SortFunc leaves its insertion-sort regime) whose ids hold numerals that do
+        # not fit uint64 (natural.Less falls back to byte order there and the order has cycles). Outside the model's
+        # domain (sort_nat stands for "a correct sort" only where the order is total): decided by the oracle alone.
+        for i in range(n // 10):
+            r = rng.fork()
+            big = [b"18446744073709551616", b"18446744073709551617", b"99999999999999999999999"]
+            toks = [b"0", b"1", b"2", b"9", b"a", b"b", b"x", b"01", b"10", b"007", b"/"] + big
+            ids = set()
+            while len(ids) < r.range(13, 40):
+                ids.add(b"Test" + b"".join(r.choice(toks) for _ in range(r.range(1, 4))) + b" - %d" % r.range(1, 12))
+            ids = r.shuffle(sorted(ids))
+            content = b"".join(frame(i_, b"v") for i_ in ids)
+            # every entry is addressed by one passing call
+            calls = []
+            byname = {}
+            for i_ in ids:
+                t_, k_ = i_.rsplit(b" - ", 1)
+                byname.setdefault(t_, []).append(int(k_))
+            setup = [G.op_putfile(b"def/zz_verif_trace_test.snap", content)]
+            for t_, ks in byname.items():
+                for _k in range(max(ks)):
+                    calls.append(G.op_match_snap(0, t_, [b"v"]))
+                calls.append(G.op_end(t_))
+            ops = setup + calls + [G.op_setenv(False, "unset"), {"op": "dumpfs"}, {"op": "clean", "sort": True, "count": 1}, {"op": "dumpfs"},
+                                   {"op": "clean", "sort": True, "count": 1}, {"op": "dumpfs"}]
+            cases.append({"ci": False, "updvar": "unset", "colour": False, "ops": ops,
+                          "meta": {"mode": "bigfile", "ci": False, "upd": "unset", "sort": True, "oracle_only": True, "bigfile": True}})
         return cases
 
     def oracle(self, case, ops, results):
@@ -124,6 +152,17 @@ class C10(CleanBase):
         if b2 != b1 or cl[1][2]["writes"] != "-":
             fails.append({"msg": "second Clean changed something: writes=%s" % cl[1][2]["writes"]})
         return fails
+
+    def known_signature(self, finding, case, ops, results, failure):
+        if finding["id"] == "K11" and ("second Clean changed something" in failure["msg"] or "after sorting" in failure["msg"]):
+            fss = [r for r in results if r[0] == "fs"]
+            main = hx(b"/S/def/zz_verif_trace_test.snap")
+            if not fss or main not in fss[0][2] or not any(kv.get("sort") == "1" for n_, kv in ops if n_ == "clean"):
+                return False
+            ids = [i for i, _ in parse_entries(unhx(fss[0][2][main]))]
+            overflowing = any(int(m) >= 2 ** 64 for i in ids for m in re.findall(rb"\d+", i))
+            return len(ids) >= 13 and overflowing
+        return False
 
     def nontrivial(self, case, ops, results):
         return any(r[0] == "clean" and "mod:" in r[2].get("writes", "") for r in results)
